@@ -134,28 +134,42 @@ theorem missed_only_after_departure {cfg : Cfg} {s : State} (hr : Reach (Batcher
     (hu : u ∈ s.subs) (hm : u.missed = true) : u.ctxDone = true ∨ s.closed = true :=
   (invSub hr u hu).2.1 hm
 
-/-- **close_closes_all**: when `Close` has returned, the forwarder of every subscriber ever accepted
-is `done`: it has closed the subscriber's channel and removed it from `eventChs`. -/
-theorem close_closes_all {cfg : Cfg} {s : State} (hr : Reach (Batcher.lts cfg) s) (hc : s.bc = .returned) :
-    ∀ u ∈ s.subs, u.pc = .done :=
-  (invCtl hr).2.2.2.2.2.2 hc
+/-- **close_closes_all**, for EVERY `Close` call (any number of overlapping or sequential callers):
+the return of a `Close` call — the step `closeReturn` of whichever caller — happens only in a state
+in which `closeCh` is closed and the forwarder of every subscriber ever accepted is `done`: it has
+closed the subscriber's channel and removed it from `eventChs`. -/
+theorem close_closes_all {cfg : Cfg} {s s' : State} (hr : Reach (Batcher.lts cfg) s)
+    (hst : Batcher.step cfg s .closeReturn = some s') :
+    s.closed = true ∧ (∀ u ∈ s.subs, u.pc = .done) ∧ s'.subs = s.subs ∧ 0 < s'.cr := by
+  have hC := invCtl hr
+  simp only [Batcher.step, Batcher.closeReturn] at hst
+  split at hst <;> try contradiction
+  rename_i hg
+  simp only [Option.some.injEq] at hst
+  subst hst
+  refine ⟨hC.2.2.2.2.1 (Or.inl hg.1), ?_, rfl, by simp⟩
+  intro u hu
+  have := hg.2
+  simp only [allDone, List.all_eq_true, beq_iff_eq] at this
+  exact this u hu
 
-/-- **nothing_after_close**: once `Close` has returned, whatever happens next (any step of anyone)
-`Close` stays returned, no subscriber is handed anything, nothing is fanned out, no subscriber is
-added; in particular no `send` and no delivery step is enabled. -/
+/-- State form: once some `Close` call has returned, every forwarder is `done` — and stays so. -/
+theorem close_closes_all_state {cfg : Cfg} {s : State} (hr : Reach (Batcher.lts cfg) s) (hc : 0 < s.cr) :
+    s.closed = true ∧ ∀ u ∈ s.subs, u.pc = .done :=
+  ⟨(invCtl hr).2.2.2.2.1 (Or.inr hc), (invCtl hr).2.2.2.2.2.1 hc⟩
+
+/-- **nothing_after_close**, for every `Close` call: once ANY `Close` call has returned, whatever
+happens next (any step of anyone, including further `Close` calls) no subscriber is handed anything,
+nothing is fanned out, no subscriber is added; in particular no `send` and no delivery step is
+enabled. -/
 theorem nothing_after_close {cfg : Cfg} {s s' : State} {a : Label} (hr : Reach (Batcher.lts cfg) s)
-    (hc : s.bc = .returned) (hst : Batcher.step cfg s a = some s') :
-    s'.bc = .returned ∧ s'.subs.map (·.delivered) = s.subs.map (·.delivered) ∧ s'.out = s.out ∧
+    (hc : 0 < s.cr) (hst : Batcher.step cfg s a = some s') :
+    0 < s'.cr ∧ s'.subs.map (·.delivered) = s.subs.map (·.delivered) ∧ s'.out = s.out ∧
     a ≠ .send ∧ ∀ i, a ≠ .fwdDeliver i := by
   have hC := invCtl hr
-  have hdone := hC.2.2.2.2.2.2 hc
-  have hclosed : s.closed = true := hC.2.2.2.1.mpr (Or.inr hc)
-  have hq := C06.close_quiescent (reach_proj hr) (hC.2.2.2.2.1 hclosed)
-  have hepc : s.epc = .idle := by
-    cases he : s.epc with
-    | idle => rfl
-    | waiting r => have := hC.2.1 r he; simp [hq.1] at this
-    | sending r i => have := hC.2.2.1 r i he; simp [hq.1] at this
+  have hdone := hC.2.2.2.2.2.1 hc
+  have hclosed : s.closed = true := hC.2.2.2.2.1 (Or.inr hc)
+  have hepc : s.epc = .idle := (lockFree_of_qclosed hr (hC.2.2.2.1 (Or.inl hclosed))).1
   have hset : ∀ (i : Nat) (u u' : Sub), s.subs[i]? = some u → u'.delivered = u.delivered →
       (s.subs.set i u').map (·.delivered) = s.subs.map (·.delivered) := by
     intro i u u' hi hd
@@ -172,11 +186,10 @@ theorem nothing_after_close {cfg : Cfg} {s s' : State} {a : Label} (hr : Reach (
     · rfl
   cases a
   case proc l =>
-    obtain ⟨_, hs, _, hb, ho, _⟩ := procStep_p (by simpa [Batcher.step] using hst)
+    obtain ⟨_, hs, _, _, hb, ho, _⟩ := procStep_p (by simpa [Batcher.step] using hst)
     simp [hs, hb, ho, hc]
   case closeCall =>
-    simp only [Batcher.step, closeCall, hc] at hst
-    cases hst
+    rcases closeCall_cases (by simpa [Batcher.step] using hst) with ⟨p', hp, _, rfl⟩ | ⟨_, rfl⟩ <;> simp [hc]
   case fwdDeliver i =>
     bstep hst
     rename_i u hu _ x hpc
@@ -184,6 +197,9 @@ theorem nothing_after_close {cfg : Cfg} {s s' : State} {a : Label} (hr : Reach (
     simp [hpc] at this
   case send =>
     simp [Batcher.step, send, hepc] at hst
+  case closeReturn =>
+    bstep hst
+    simp
   all_goals
     (bstep hst <;>
      (first
@@ -255,11 +271,14 @@ theorem departure_never_wedges_batch {cfg : Cfg} (hfix : cfg.fixed = true) (hcap
   exact ⟨s', h1, by rw [h2]; exact he⟩
 
 /-- **departure_never_wedges (Close)**: from every reachable state in which `Close` has been
-called, `Close` returns. -/
+called (`stopped` is set by the first call; any number of further calls may be in any phase), EVERY
+pending `Close` call returns: none is left inside `queue.Close()` (`cq`, and the processor's own
+`Close` pc), waiting for the lock (`cl`) or in `wg.Wait()` (`cw`). -/
 theorem departure_never_wedges_close {cfg : Cfg} (hfix : cfg.fixed = true) (hcap : 0 < cfg.cap)
-    {stalled : Nat → Prop} {s : State} (hr : Reach (Batcher.lts cfg) s) (hb : s.bc ≠ .idle)
+    {stalled : Nat → Prop} {s : State} (hr : Reach (Batcher.lts cfg) s) (hb : s.p.stopped = true)
     (hd : Departed stalled s) :
-    ∃ s', Steps (Batcher.lts cfg) (Allowed stalled) s s' ∧ s'.bc = .returned :=
+    ∃ s', Steps (Batcher.lts cfg) (Allowed stalled) s s' ∧ s'.cq = 0 ∧ s'.cl = 0 ∧ s'.cw = 0 ∧
+      s'.p.cpc = .returned ∧ 0 < s'.cr ∧ s.cr ≤ s'.cr :=
   close_completes hfix hcap hr hb hd
 
 /-! ## the current source (regenerated facts, T1) -/
@@ -285,8 +304,9 @@ theorem code_is_repaired (interval : Int) : (codeCfg interval).fixed = true ∧ 
 
 /-- `departure_never_wedges_close` for the configuration of the current source. -/
 theorem code_close_never_wedges (interval : Int) {stalled : Nat → Prop} {s : State}
-    (hr : Reach (Batcher.lts (codeCfg interval)) s) (hb : s.bc ≠ .idle) (hd : Departed stalled s) :
-    ∃ s', Steps (Batcher.lts (codeCfg interval)) (Allowed stalled) s s' ∧ s'.bc = .returned :=
+    (hr : Reach (Batcher.lts (codeCfg interval)) s) (hb : s.p.stopped = true) (hd : Departed stalled s) :
+    ∃ s', Steps (Batcher.lts (codeCfg interval)) (Allowed stalled) s s' ∧ s'.cq = 0 ∧ s'.cl = 0 ∧ s'.cw = 0 ∧
+      s'.p.cpc = .returned ∧ 0 < s'.cr ∧ s.cr ≤ s'.cr :=
   departure_never_wedges_close (code_is_repaired interval).1 (code_is_repaired interval).2 hr hb hd
 
 /-- `departure_never_wedges_execute` for the configuration of the current source. -/
@@ -349,8 +369,8 @@ def demoLog : List (Event Nat Nat) :=
 def demo1 : State :=
   { p := { q := [demoItem], token := .loop, reset := true, stopped := false, stopClosed := false, pc := .top,
            cpc := .idle, now := 4, nextId := 2, log := [.enq demoItem, .enq ⟨7, 10, 100, 0⟩] },
-    subs := [Sub.new 0], epc := .idle, closed := false, bc := .idle, waitS := 0, retS := 0, out := [],
-    calls := [(1, 4), (0, 0)] }
+    subs := [Sub.new 0], epc := .idle, closed := false, cq := 0, cl := 0, cw := 0, cr := 0, waitS := 0, retS := 0,
+    out := [], calls := [(1, 4), (0, 0)] }
 
 theorem demo_run1 : runFrom demoCfg Batcher.init [.subCall, .subAcquire, .subReturn,
     .proc (.enqueue 7 10 100 true), .proc (.advance 4), .proc (.enqueue 7 14 101 true)] = some demo1 := by
@@ -378,15 +398,17 @@ theorem demo_run3 : runFrom demoCfg demo2 [.execLock, .send, .proc .cbReturn, .f
   simp [runFrom, demoCfg, demo1, demo2, demo3, demoItem, demoLog, Batcher.step, procStep, Processor.step, IsHead,
     execLock, send, fwdTake, fwdDeliver, setSub, Sub.new, Sub.inList]
 
-/-- Close. -/
+/-- Two overlapping `Close` calls: the second one is made while the first is inside `queue.Close()`;
+both return. -/
 def demo4 : State :=
   { demo3 with p := { demo3.p with token := .close, stopped := true, stopClosed := true, cpc := .returned,
-                                    log := .closeRet :: demoLog },
+                                    log := .closeRet :: .closeRet :: demoLog },
                subs := [{ Sub.new 0 with delivered := [demoItem], pc := .done, exitClosed := true }],
-               closed := true, bc := .returned }
+               closed := true, cr := 2 }
 
-theorem demo_run4 : runFrom demoCfg demo3 [.closeCall, .proc .closeStopCh, .proc .closeTake, .proc .closeReturn,
-    .closeLock, .fwdExitClose 0, .fwdCloseExit 0, .fwdRemove 0, .closeReturn] = some demo4 := by
+theorem demo_run4 : runFrom demoCfg demo3 [.closeCall, .proc .closeStopCh, .closeCall, .proc .closeTake, .proc .closeAgain,
+    .proc .closeReturn, .closeLock, .closeLock, .fwdExitClose 0, .fwdCloseExit 0, .fwdRemove 0, .closeReturn,
+    .closeReturn] = some demo4 := by
   simp [runFrom, demoCfg, demo1, demo2, demo3, demo4, demoItem, demoLog, Batcher.step, procStep, Processor.step,
     closeCall, closeLock, Batcher.closeReturn, fwdExitClose, fwdCloseExit, fwdRemove, setSub, Sub.new, lockFree, allDone]
 
@@ -400,11 +422,11 @@ example : Reach (Batcher.lts demoCfg) demo3 ∧
     ∃ u, demo3.subs[0]? = some u ∧ u ∈ demo3.subs ∧ u.missed = false ∧ demoItem ∈ u.delivered :=
   ⟨demo_reach.1, _, rfl, by simp [demo3], rfl, by simp [demo3, Sub.new]⟩
 
-/-- `close_closes_all`, `nothing_after_close` have instances: `Close` has returned in `demo4`, and a
-step is still enabled there (a late `Subscribe` call). -/
-example : Reach (Batcher.lts demoCfg) demo4 ∧ demo4.bc = .returned ∧ demo4.subs ≠ [] ∧
+/-- `close_closes_all`, `nothing_after_close` have instances: two overlapping `Close` calls have
+returned in `demo4`, and a step is still enabled there (a late `Subscribe` call). -/
+example : Reach (Batcher.lts demoCfg) demo4 ∧ 0 < demo4.cr ∧ demo4.subs ≠ [] ∧
     (Batcher.step demoCfg demo4 .subCall).isSome :=
-  ⟨demo_reach.2, rfl, by simp [demo4], by simp [Batcher.step, subCall]⟩
+  ⟨demo_reach.2, by simp [demo4], by simp [demo4], by simp [Batcher.step, subCall]⟩
 
 /-- The callback is running (`demo2`) and the only subscriber has ended its context. -/
 def demo2c : State := { demo2 with subs := [{ Sub.new 0 with ctxDone := true }] }
@@ -412,7 +434,7 @@ def demo2c : State := { demo2 with subs := [{ Sub.new 0 with ctxDone := true }] 
 theorem demo2c_step : Batcher.step demoCfg demo2 (.cancel 0) = some demo2c := by
   simp [Batcher.step, cancel, setSub, demo2, demo1, demo2c, Sub.new]
 
-def demo2cc : State := { demo2c with p := { demo2c.p with stopped := true, cpc := .casDone }, bc := .inQueue }
+def demo2cc : State := { demo2c with p := { demo2c.p with stopped := true, cpc := .casDone } }
 
 theorem demo2cc_step : Batcher.step demoCfg demo2c .closeCall = some demo2cc := by
   simp [Batcher.step, closeCall, Processor.step, demo2, demo1, demo2c, demo2cc]
@@ -420,7 +442,7 @@ theorem demo2cc_step : Batcher.step demoCfg demo2c .closeCall = some demo2cc := 
 /-- The `departure_never_wedges_*` theorems have instances: every reader stalled, the subscriber's
 context ended, the callback running, (in `demo2cc`) `Close` called; in `demo1` a live item. -/
 example : Reach (Batcher.lts demoCfg) demo2c ∧ demo2c.p.pc = .running demoItem ∧ Departed (fun _ => True) demo2c ∧
-    Reach (Batcher.lts demoCfg) demo2cc ∧ demo2cc.bc ≠ .idle ∧ Departed (fun _ => True) demo2cc ∧
+    Reach (Batcher.lts demoCfg) demo2cc ∧ demo2cc.p.stopped = true ∧ Departed (fun _ => True) demo2cc ∧
     demoCfg.fixed = true ∧ 0 < demoCfg.cap := by
   have h2 := reach_of_run (reach_of_run Reach.init demo_run1) demo_run2
   have h2c : Reach (Batcher.lts demoCfg) demo2c := reach_of_run (ls := [.cancel 0]) h2 (by simp [runFrom, demo2c_step])
@@ -429,7 +451,7 @@ example : Reach (Batcher.lts demoCfg) demo2c ∧ demo2c.p.pc = .running demoItem
     cases i with
     | zero => simp [demo2c, demo2, demo1] at hi; subst hi; rfl
     | succ i => simp [demo2c, demo2, demo1] at hi
-  refine ⟨h2c, rfl, hd, reach_of_run (ls := [.closeCall]) h2c (by simp [runFrom, demo2cc_step]), by simp [demo2cc], ?_, rfl, by decide⟩
+  refine ⟨h2c, rfl, hd, reach_of_run (ls := [.closeCall]) h2c (by simp [runFrom, demo2cc_step]), rfl, ?_, rfl, by decide⟩
   exact hd
 
 end Kit.Batcher.C10
